@@ -226,4 +226,7 @@ def run(ctx):
     mirs(ctx)
     tasks = [('conv:anchor', conv_task(False)), ('conv:pino', conv_task(True))]
     tasks += [(f"wrapper:{'in' if ei else 'out'}:{'a2b' if ab else 'b2a'}", wrapper_task(ei, ab)) for ei in (True, False) for ab in (True, False)]
-    ctx.parallel(tasks, max_procs=6)
+    # Pinocchio liquidity handlers: deposits charge the fee-INCLUDED delta (maxima apply to it), withdrawals report the fee-EXCLUDED amount (minima apply to it)
+    from props import pino
+    tasks += [t for t in pino.tasks() if t[0].endswith('_v2')]
+    ctx.parallel(tasks, max_procs=8)
